@@ -43,13 +43,25 @@ THEOREMS = [P + n for n in (
     'geotop_clipped_linear', 'geotop_uses_stack_quantiles', 'quantile_endpoints', 'transform_applies_f', 'descriptors_and_measure_propagate',
     'measure_names', 'geoWeights_spec', 'geoWeights_mem', 'geodesic_shortest_path',
     'geodesicT_spec',
+    # round 3
+    'quantile_index_spec', 'quantile_numpy_linear', 'quantile_between_neighbours', 'quantile_monotone',
+    'quantile_grid', 'geotop_thresholds_ordered', 'geotop_undefined_iff', 'geotop_coinciding_thresholds',
+    'minmax_nan_as_coded', 'geotop_nan_as_coded', 'geodesic_raises_iff', 'geodesic_stack_rows',
+    'kendall_strictMono_invariant_both', 'whitened_corr_affine_invariant', 'cosine_not_shift_invariant',
+    'corr_not_monotone_invariant', 'rankT_as_coded', 'descriptors_as_coded', 'measure_names_sqrt_rank',
+)] + ['Rsa.Transform.' + n for n in (
+    # bridges between the generated leaves (Rsa.Gen.C17) and the forms the theorems speak about
+    'posClip_eq', 'sqrtArg_eq', 'minmaxEntry_eq', 'geotopEntry_eq', 'gtQa_eq', 'gtQb_eq',
+    'geoKeep_eq_one_iff',
 )]
 RULE = ('cases come from one PRNG. kind tf: one of the seven transforms on a stack of 1..4 RDMs over '
         'n = 2..6 conditions (small integers / quarter- and eighth-valued dyadics with many ties, '
         'negatives, values inside [0,1], constant RDMs; NaN entries for rank/sqrt/positive; integer '
         'dtype stacks), all five rank methods, quantile pairs, a menu of custom functions, a measure '
         'name (None, plain, already ranked, "squared ...", padded) and list- or array-typed '
-        'descriptors; compared: every vector entry, NaN/inf positions, the measure name, the three '
+        'descriptors; 12 % of the minmax / geotop / geodesic stacks carry NaN entries (not supported there: '
+        'the modelled propagation / ValueError is compared), geotop also with low == up and heavily tied '
+        'stacks (coinciding thresholds: NaN on the threshold), geodesic also with n = 2; compared: every vector entry, NaN/inf positions, the measure name, the three '
         'descriptor dicts, n_rdm/n_cond. kind inv: compare(T(x), T\'(y)) on the real code for every '
         'measure with the maps theory allows (strictly increasing maps incl. sqrt/rank/minmax '
         'transforms for the rank-based measures, positive scalings for cosine-type, positive affine '
@@ -63,9 +75,13 @@ RULE = ('cases come from one PRNG. kind tf: one of the seven transforms on a sta
 KINDS = ['rank', 'sqrt', 'positive', 'custom', 'minmax', 'geotop', 'geodesic']
 RANK_METHODS = ['average', 'min', 'max', 'dense', 'ordinal']
 NAN_OK = ('rank', 'sqrt', 'positive')
+NAN_UNSUPPORTED = ('minmax', 'geotop', 'geodesic')   # modelled as coded: propagate / raise
 INV_METHODS = ['spearman', 'rho-a', 'tau-a', 'kendall', 'cosine', 'corr', 'cosine_cov', 'corr_cov']
 RANK_BASED = ('spearman', 'rho-a', 'tau-a', 'kendall', 'tau-b')
 EXACT = ('tau-a', 'rho-a')
+DIRECT = {'spearman': 'compare_spearman', 'rho-a': 'compare_rho_a', 'tau-a': 'compare_kendall_tau_a',
+          'kendall': 'compare_kendall_tau', 'cosine': 'compare_cosine', 'corr': 'compare_correlation',
+          'cosine_cov': 'compare_cosine_cov_weighted', 'corr_cov': 'compare_correlation_cov_weighted'}
 CUSTOM_FNS = ['affine', 'cube', 'cumsum', 'revrows']
 BRANCHES = (['t:' + k for k in KINDS] + ['rank:' + m for m in RANK_METHODS] +
             ['custom:' + f for f in CUSTOM_FNS] +
@@ -76,6 +92,9 @@ BRANCHES = (['t:' + k for k in KINDS] + ['rank:' + m for m in RANK_METHODS] +
             ['map:' + m for m in ('sqrt_transform', 'rank_transform', 'minmax_transform',
                                   'positive_transform', 'affine', 'cube', 'exp', 'scale', 'pow2', 'shift',
                                   'sqrt', 'log')] +
+            ['nan:minmax', 'nan:geotop', 'nan:geodesic', 'nan:partial_stack', 'geodesic:raise',
+             'geotop:same_q', 'geotop:coincide_nan', 'inv:arg:array', 'inv:arg:array1d',
+             'inv:route:direct', 'inv:alias:tau-b', 'desc:scalar_rdm'] +
             ['scale:tiny', 'scale:huge', 'offset:huge', 'near_tie',
              'inv:scale:tiny', 'inv:scale:huge', 'inv:offset:huge', 'inv:near_tie',
              'inv:tau-a:scale:tiny', 'inv:tau-a:offset:huge', 'inv:tau-a:near_tie'])
@@ -94,7 +113,11 @@ TRUSTED_EXTRA = [
     'contract: scipy.stats.rankdata(method, nan_policy=omit) = count-form ranks among the non-NaN '
     'entries (checked exactly on every rank case, all five methods)',
     'contract: networkx.floyd_warshall_numpy = shortest-path lengths (checked on every geodesic case)',
-    'contract: np.quantile default method = linear interpolation between order statistics',
+    'contract: np.quantile default method "linear" = a[floor(v)] + (v - floor(v)) * (a[min(floor(v)+1, n-1)] - a[floor(v)]) '
+    'with v = q*(n-1) on the sorted data (theorem quantile_numpy_linear states the model computes exactly '
+    'this; checked within 1e-9 on every geotop case); np.quantile of data with a NaN is NaN',
+    'contract: scipy squareform(checks=True) raises ValueError on a NaN matrix (geodesic of a constant / '
+    'NaN RDM; compared on every such case)',
     'measure comparison functions: the model of property C03 (Rsa.Core.Compare, op c03.compare)',
 ]
 
@@ -318,7 +341,8 @@ def scale_tags(stack):
 
 def _measure(rng):
     return rng.choice([None, None, 'euclidean', 'squared euclidean', 'squared mahalanobis',
-                       'correlation', 'corr (ranks)', ' padded ', 'crossnobis', ''])
+                       'correlation', 'corr (ranks)', ' padded ', 'crossnobis', '',
+                       'sqrt of x (ranks) pooled'])
 
 
 def _descriptors(rng, n_rdm, n):
@@ -334,12 +358,16 @@ def _descriptors(rng, n_rdm, n):
         pat_descr['cond'] = ['c' + str(rng.randint(0, 9)) for _ in range(n)]
     if rng.random() < 0.5:
         pat_descr['type'] = [rng.randint(0, 2) for _ in range(n)]
+    if n_rdm == 1 and rng.random() < 0.2:
+        # a scalar rdm descriptor (accepted for a single RDM: the constructor wraps it in a list)
+        rdm_descr['run'] = rng.choice([7, 'r1'])
     return descr, rdm_descr, pat_descr
 
 
 def _tf_case(rng, t, nmax):
-    nmin = 3 if t == 'geodesic' else 2
-    n = rng.randint(nmin, nmax)
+    n = rng.randint(2, nmax)
+    if t == 'geodesic' and n == 2 and rng.random() < 0.8:
+        n = rng.randint(3, nmax)        # a single pair is always constant (the call raises): keep a few
     m = n * (n - 1) // 2
     n_rdm = rng.choice([1, 1, 2, 3, 4])
     # wide scales / offsets / near ties: everywhere the comparison is exact or well-conditioned
@@ -358,6 +386,14 @@ def _tf_case(rng, t, nmax):
             for k in range(m):
                 if rng.random() < 0.25:
                     row[k] = None
+    if t in NAN_UNSUPPORTED and rng.random() < 0.12:
+        # NaN is not supported there; what the code does with it (an RDM / the whole stack turns
+        # NaN, geodesic raises) is modelled and compared: one NaN in one RDM, sometimes more
+        rows = [rng.randrange(n_rdm)] if rng.random() < 0.7 else list(range(n_rdm))
+        for i in rows:
+            x[i] = list(x[i])
+            for k in rng.sample(range(m), rng.randint(1, max(1, m // 2))):
+                x[i][k] = None
     dtype = 'float'
     if all(isinstance(v, int) for row in x for v in row) and rng.random() < 0.3:
         dtype = 'int'
@@ -370,6 +406,8 @@ def _tf_case(rng, t, nmax):
     if t == 'geotop':
         low = rng.choice([0.0, 0.1, 0.2, 0.25, 0.3, 0.05, round(rng.uniform(0, 0.45), 2)])
         up = rng.choice([1.0, 0.9, 0.8, 0.75, 0.7, 0.95, round(rng.uniform(0.55, 1), 2)])
+        if rng.random() < 0.06:
+            low = up = rng.choice([0.0, 0.25, 0.5, 0.5, 0.75, 1.0])   # one threshold: a step (0/0 on it)
         case['low'], case['up'] = low, up
     if t == 'custom':
         name = rng.choice(CUSTOM_FNS)
@@ -499,8 +537,19 @@ def _inv_case(rng, method, nmax):
     sigma = None
     if method in ('cosine_cov', 'corr_cov') and rng.random() < 0.4:
         sigma = {'vec': [rng.choice(['1/2', 1, '3/2', 2, 3]) for _ in range(n)]}
+    # glue around the measures: how the (transformed) RDMs reach the comparison -- as RDMs objects or
+    # as plain arrays (2-D, or 1-D for a single RDM), through compare(method=...) or through the
+    # public compare_<measure> function itself
+    form_x = rng.choice(['rdms', 'rdms', 'rdms', 'array'] + (['array1d'] if nx == 1 else []))
+    form_y = rng.choice(['rdms', 'rdms', 'rdms', 'array'] + (['array1d'] if ny == 1 else []))
+    route = rng.choice(['compare', 'compare', 'direct'])
+    if method == 'kendall' and rng.random() < 0.3:
+        method_name = 'tau-b'           # alias of the same measure
+    else:
+        method_name = method
     return {'kind': 'inv', 'method': method, 'n': n, 'x': x, 'y': y, 'sx': sx, 'sy': sy,
-            'fx': fx, 'fy': fy, 'sigma': sigma, 'nanpos': nanpos}
+            'fx': fx, 'fy': fy, 'sigma': sigma, 'nanpos': nanpos,
+            'form_x': form_x, 'form_y': form_y, 'route': route, 'method_name': method_name}
 
 
 def generate(rng, tier):
@@ -531,6 +580,13 @@ def exhaustive():
             yield dict(base, t=t, n=3, x=[list(v)])
     for v in itertools.product([0, 1, 2], repeat=6):
         yield dict(base, t='geodesic', n=4, x=[list(v)])
+    # NaN where it is not supported, coinciding thresholds: every {0, 1, 2, NaN}^3 next to a regular RDM
+    for v in itertools.product([0, 1, 2, None], repeat=3):
+        for t in ('minmax', 'geodesic'):
+            yield dict(base, t=t, n=3, x=[list(v), [0, 1, 3]])
+        for low, up in ((0.25, 0.75), (0.5, 0.5), (0.0, 1.0)):
+            yield dict(base, t='geotop', n=3, x=[list(v)], low=low, up=up)
+            yield dict(base, t='geotop', n=3, x=[list(v), [1, 1, 2]], low=low, up=up)
 
 
 def search(rng, tier):
@@ -580,7 +636,20 @@ def inv_call(case, transformed=True):
             rx = quiet(_apply_map, case['fx'], rx)
             if case['fy'] is not None:
                 ry = quiet(_apply_map, case['fy'], ry)
-        return _mat_out(quiet(_cmp.compare, rx, ry, method=case['method'],
+
+        def as_form(r, form):
+            if form == 'array':
+                return np.array(r.get_vectors())
+            if form == 'array1d':
+                return np.array(r.get_vectors())[0]
+            return r
+        rx, ry = as_form(rx, case.get('form_x', 'rdms')), as_form(ry, case.get('form_y', 'rdms'))
+        if case.get('route') == 'direct':
+            fun = getattr(_cmp, DIRECT[case['method']])
+            if case['method'] in ('cosine_cov', 'corr_cov'):
+                return _mat_out(quiet(fun, rx, ry, sigma_k=_sigma_np(case['sigma'])))
+            return _mat_out(quiet(fun, rx, ry))
+        return _mat_out(quiet(_cmp.compare, rx, ry, method=case.get('method_name', case['method']),
                               sigma_k=_sigma_np(case['sigma'])))
     except EXC as exc:
         return {'exc': type(exc).__name__}
@@ -612,7 +681,7 @@ def run_impl(case):
 def source_descriptors(case):
     """what the source RDMs object carries: the given dicts plus the library's `index`"""
     n_rdm = len(case['x'])
-    rd = dict(case.get('rdm_descr', {}))
+    rd = {k: (v if isinstance(v, list) else [v]) for k, v in case.get('rdm_descr', {}).items()}
     rd.setdefault('index', list(range(n_rdm)))
     pd = dict(case.get('pat_descr', {}))
     pd.setdefault('index', list(range(case['n'])))
@@ -712,11 +781,14 @@ def model_result(case, answers):
     a = answers[0]
     if isinstance(a, dict) and 'model_error' in a:
         return a
+    if a.get('raise'):
+        return {'raise': a['raise']}
     out = {'vecs': [[_dec(v, case['t'] == 'sqrt') for v in row] for row in a['vecs']],
            'measure': a['measure'], 'descr': a['descr'], 'rdm_descr': a['rdm_descr'],
            'pat_descr': a['pat_descr']}
     if 'lo' in a:
         out['lo'], out['hi'] = float(unrat(a['lo'])), float(unrat(a['hi']))
+        out['lo_exact'], out['hi_exact'] = rat(unrat(a['lo'])), rat(unrat(a['hi']))
     return out
 
 
@@ -771,18 +843,37 @@ def _diff_sim(a, b, rtol, atol, undefined_ok=False):
     return None
 
 
+def geotop_degenerate(case, model):
+    """None | 'robust' | 'numeric' (see `_vec_diff`)"""
+    if case['t'] != 'geotop' or 'lo_exact' not in model:
+        return None
+    lo, hi = unrat(model['lo_exact']), unrat(model['hi_exact'])
+    fv = [_fl(v) for row in case['x'] for v in row]
+    spread = max(fv) - min(fv)
+    if lo == hi:
+        arr = np.array([[_fl(v) for v in row] for row in case['x']], dtype=float)
+        flo, fhi = float(np.quantile(arr, case['low'])), float(np.quantile(arr, case['up']))
+        if flo == fhi and F(flo) == lo:
+            return 'robust'
+        return 'numeric'
+    return 'numeric' if abs(model['hi'] - model['lo']) <= 1e-9 * spread else None
+
+
 def _vec_diff(case, impl, model):
     rtol, atol = (0.0, 0.0) if case['t'] in ('rank', 'positive', 'custom') else (1e-9, 1e-12)
     a, b = impl['vecs'], model['vecs']
     if len(a) != len(b) or any(len(r) != len(s) for r, s in zip(a, b)):
         return f'shape of vectors {len(a)}x{len(a[0]) if a else 0} != {len(b)}x{len(b[0]) if b else 0}'
-    # geotop with (numerically) coinciding thresholds: the map is 0/0 at the threshold itself and
-    # np.quantile's rounding decides on which side an entry equal to it falls -> not compared
+    # geotop with coinciding thresholds: the map is 0/0 at the threshold itself.  `robust`: the
+    # exact thresholds coincide, are doubles, and np.quantile returns exactly them -> every
+    # comparison of the code is the exact one and the entries *on* the threshold are compared too
+    # (NaN).  Otherwise (thresholds only numerically coinciding) np.quantile's rounding decides on
+    # which side an entry equal to it falls -> those entries are not compared.
     skip = None
-    if case['t'] == 'geotop':
+    if case['t'] == 'geotop' and 'lo' in model:
         fv = [_fl(v) for row in case['x'] for v in row]
         spread = max(fv) - min(fv)
-        if abs(model['hi'] - model['lo']) <= 1e-9 * spread:
+        if abs(model['hi'] - model['lo']) <= 1e-9 * spread and geotop_degenerate(case, model) != 'robust':
             skip = model['lo']
     for i, (r, s) in enumerate(zip(a, b)):
         for j, (u, v) in enumerate(zip(r, s)):
@@ -811,14 +902,15 @@ def compare(case, impl, model):
             if d:
                 return f'model measure not invariant: {d}'
         return None
-    degenerate = any(all(v is None for v in row) for row in model['vecs']) and \
-        case['t'] in ('geodesic',)
+    if 'raise' in model:
+        # geodesic of a stack with a constant RDM or a NaN: the min-max row is NaN, the NaN
+        # shortest-path matrix is refused by scipy's squareform -> the whole call raises
+        if impl.get('exc') == model['raise']:
+            return None
+        return f"{case['t']}: model says the call raises {model['raise']}, implementation " \
+               f"{'raised ' + impl['exc'] if 'exc' in impl else 'returned a result'}"
     if 'exc' in impl:
-        if degenerate and impl['exc'] == 'ValueError':
-            return None     # constant RDM: NaN graph, scipy's squareform refuses it
         return f"{case['t']}: implementation raised {impl['exc']}"
-    if degenerate:
-        return None
     if impl['type'] != 'RDMs':
         return f"result type {impl['type']}"
     if impl['n_rdm'] != len(model['vecs']) or impl['n_cond'] != case['n']:
@@ -861,6 +953,12 @@ def features(case, impl):
             br += ['inv:both_args', 'map:' + case['fy']['name']]
         if case['nanpos']:
             br.append('inv:nan_shared')
+        for form in {case.get('form_x', 'rdms'), case.get('form_y', 'rdms')} - {'rdms'}:
+            br.append('inv:arg:' + form)
+        if case.get('route') == 'direct':
+            br.append('inv:route:direct')
+        if case.get('method_name', case['method']) != case['method']:
+            br.append('inv:alias:' + case['method_name'])
         tags = sorted(set(scale_tags(case['x']) + scale_tags(case['y'])))
         br += ['inv:' + t for t in tags]
         if case['method'] == 'tau-a':
@@ -875,9 +973,22 @@ def features(case, impl):
         br.append('rank:' + case['method'])
     if t == 'custom':
         br.append('custom:' + case['fn']['name'])
+    if any(not isinstance(v, list) for v in case.get('rdm_descr', {}).values()):
+        br.append('desc:scalar_rdm')
     has_nan = any(v is None for row in case['x'] for v in row)
     if has_nan:
         br.append('nan')
+        if t in NAN_UNSUPPORTED:
+            br.append('nan:' + t)
+            if len(case['x']) > 1 and any(all(v is not None for v in row) for row in case['x']):
+                br.append('nan:partial_stack')
+    if t == 'geodesic' and isinstance(impl, dict) and impl.get('exc') == 'ValueError':
+        br.append('geodesic:raise')
+    if t == 'geotop' and case['low'] == case['up']:
+        br.append('geotop:same_q')
+    if t == 'geotop' and isinstance(impl, dict) and 'vecs' in impl and not has_nan and \
+            any(v is None for row in impl['vecs'] for v in row):
+        br.append('geotop:coincide_nan')
     if any(len({unrat(v) for v in row if v is not None}) < sum(v is not None for v in row)
            for row in case['x']):
         br.append('ties')
